@@ -92,7 +92,7 @@ theorem arm_number (cc : CharClass) (τ : Lexer) (x : Char) {ty cs p0 p sq eq ae
     ∃ e, stateStep cc τ x = .ok (.cont e none false) ∧ At e .number ty (cs ++ [x]) p0 p sq eq ae := by
   obtain ⟨h1, h2, h3, h4, h5, h6, h7, h8, h9, h10, h11, h12, h13⟩ := h
   have hs : stateStep cc τ x = .ok (.cont { τ with currentCharacters := τ.currentCharacters ++ [x] } none false) := by
-    unfold stateStep; rw [h1]; simp only [Step.ofPair, armNumber, hx, ↓reduceIte, push]
+    unfold stateStep; rw [h1]; simp [Step.ofPair, armNumber, hx, push, h1]
   exact ⟨_, hs, by constructor <;> simp_all⟩
 
 theorem arm_identifier (cc : CharClass) (τ : Lexer) (x : Char) {ty cs p0 p sq eq ae}
@@ -100,17 +100,18 @@ theorem arm_identifier (cc : CharClass) (τ : Lexer) (x : Char) {ty cs p0 p sq e
     ∃ e, stateStep cc τ x = .ok (.cont e none false) ∧ At e .identifier ty (cs ++ [x]) p0 p sq eq ae := by
   obtain ⟨h1, h2, h3, h4, h5, h6, h7, h8, h9, h10, h11, h12, h13⟩ := h
   have hs : stateStep cc τ x = .ok (.cont { τ with currentCharacters := τ.currentCharacters ++ [x] } none false) := by
-    unfold stateStep; rw [h1]; simp only [Step.ofPair, armIdentifier, hx, ↓reduceIte, push]
+    unfold stateStep; rw [h1]; simp [Step.ofPair, armIdentifier, hx, push, h1]
   exact ⟨_, hs, by constructor <;> simp_all⟩
 
 theorem arm_operator (cc : CharClass) (τ : Lexer) (x : Char) {ty cs p0 p sq eq ae} (n : LexerOperatorNode)
     (h : At τ .operator ty cs p0 p sq eq ae) (hx : walkOperator theTree (cs ++ [x]) = some n) :
     ∃ e, stateStep cc τ x = .ok (.cont e none false) ∧ At e .operator n.tokenType (cs ++ [x]) p0 p sq eq ae := by
   obtain ⟨h1, h2, h3, h4, h5, h6, h7, h8, h9, h10, h11, h12, h13⟩ := h
-  have hs : stateStep cc τ x = .ok (.cont { τ with currentCharacters := τ.currentCharacters ++ [x],
-      currentTokenType := n.tokenType } none false) := by
+  have hs : stateStep cc τ x = .ok (.cont
+      { τ with currentCharacters := τ.currentCharacters ++ [x], currentTokenType := n.tokenType } none false) := by
+    have hw : walkOperator τ.operatorTree (τ.currentCharacters ++ [x]) = some n := by rw [h10, h3]; exact hx
     unfold stateStep; rw [h1]
-    simp only [Step.ofPair, armOperator, currentOperator, push, h10, h3, hx]
+    simp [Step.ofPair, armOperator, currentOperator, push, hw, h1]
   exact ⟨_, hs, by constructor <;> simp_all⟩
 
 /-- one more opening quote -/
@@ -119,7 +120,7 @@ theorem arm_startCharList_quote (cc : CharClass) (τ : Lexer) {ty cs p0 p sq eq}
     ∃ e, stateStep cc τ '"' = .ok (.cont e none false) ∧ At e .startCharList ty (cs ++ ['"']) p0 p sq eq false := by
   obtain ⟨h1, h2, h3, h4, h5, h6, h7, h8, h9, h10, h11, h12, h13⟩ := h
   have hs : stateStep cc τ '"' = .ok (.cont { τ with currentCharacters := τ.currentCharacters ++ ['"'] } none false) := by
-    unfold stateStep; rw [h1]; simp [Step.ofPair, armStartCharList, push, h11]
+    unfold stateStep; rw [h1]; simp [Step.ofPair, armStartCharList, push, h1, h11]
   exact ⟨_, hs, by constructor <;> simp_all⟩
 
 /-- the first character of the body: the number of opening quotes is recorded -/
@@ -129,9 +130,9 @@ theorem arm_startCharList_body (cc : CharClass) (τ : Lexer) (x : Char) {ty cs p
   obtain ⟨h1, h2, h3, h4, h5, h6, h7, h8, h9, h10, h11, h12, h13⟩ := h
   have hxq : (x != '"') = true := by simpa using hx
   have hl : (utf8Len τ.currentCharacters == 2) = false := by rw [h3]; simpa using h2q
-  have hs : stateStep cc τ x = .ok (.cont { τ with startQuoteCount := utf8Len τ.currentCharacters, state := .charList,
-      currentCharacters := τ.currentCharacters ++ [x] } none false) := by
-    unfold stateStep; rw [h1]; simp [Step.ofPair, armStartCharList, push, h11, hxq, hl]
+  have hs : stateStep cc τ x = .ok (.cont
+      { τ with startQuoteCount := utf8Len τ.currentCharacters, state := .charList, currentCharacters := τ.currentCharacters ++ [x] } none false) := by
+    unfold stateStep; rw [h1]; simp [Step.ofPair, armStartCharList, push, h1, h11, hxq, hl]
   exact ⟨_, hs, by constructor <;> simp_all⟩
 
 theorem arm_charList_body (cc : CharClass) (τ : Lexer) (x : Char) {ty cs p0 p sq eq ae}
@@ -139,9 +140,9 @@ theorem arm_charList_body (cc : CharClass) (τ : Lexer) (x : Char) {ty cs p0 p s
     ∃ e, stateStep cc τ x = .ok (.cont e none false) ∧ At e .charList ty (cs ++ [x]) p0 p sq 0 ae := by
   obtain ⟨h1, h2, h3, h4, h5, h6, h7, h8, h9, h10, h11, h12, h13⟩ := h
   have hxq : (x == '"') = false := by simpa using hx
-  have hs : stateStep cc τ x = .ok (.cont { τ with endQuoteCount := 0,
-      currentCharacters := τ.currentCharacters ++ [x] } none false) := by
-    unfold stateStep; rw [h1]; simp [Step.ofPair, armCharList, push, hxq]
+  have hs : stateStep cc τ x = .ok (.cont
+      { τ with endQuoteCount := 0, currentCharacters := τ.currentCharacters ++ [x] } none false) := by
+    unfold stateStep; rw [h1]; simp [Step.ofPair, armCharList, push, h1, hxq]
   exact ⟨_, hs, by constructor <;> simp_all⟩
 
 /-- a closing quote that is not yet the last one -/
@@ -150,9 +151,9 @@ theorem arm_charList_quote (cc : CharClass) (τ : Lexer) {ty cs p0 p sq eq ae}
     ∃ e, stateStep cc τ '"' = .ok (.cont e none false) ∧ At e .charList ty (cs ++ ['"']) p0 p sq (eq + 1) ae := by
   obtain ⟨h1, h2, h3, h4, h5, h6, h7, h8, h9, h10, h11, h12, h13⟩ := h
   have hq : (τ.startQuoteCount == τ.endQuoteCount + 1) = false := by rw [h12, h13]; simpa using hne
-  have hs : stateStep cc τ '"' = .ok (.cont { τ with endQuoteCount := τ.endQuoteCount + 1,
-      currentCharacters := τ.currentCharacters ++ ['"'] } none false) := by
-    unfold stateStep; rw [h1]; simp [Step.ofPair, armCharList, push, hq]
+  have hs : stateStep cc τ '"' = .ok (.cont
+      { τ with endQuoteCount := τ.endQuoteCount + 1, currentCharacters := τ.currentCharacters ++ ['"'] } none false) := by
+    unfold stateStep; rw [h1]; simp [Step.ofPair, armCharList, push, h1, hq]
   exact ⟨_, hs, by constructor <;> simp_all⟩
 
 theorem arm_startByteList_quote (cc : CharClass) (τ : Lexer) {ty cs p0 p sq eq}
@@ -160,7 +161,7 @@ theorem arm_startByteList_quote (cc : CharClass) (τ : Lexer) {ty cs p0 p sq eq}
     ∃ e, stateStep cc τ '\'' = .ok (.cont e none false) ∧ At e .startByteList ty (cs ++ ['\'']) p0 p sq eq false := by
   obtain ⟨h1, h2, h3, h4, h5, h6, h7, h8, h9, h10, h11, h12, h13⟩ := h
   have hs : stateStep cc τ '\'' = .ok (.cont { τ with currentCharacters := τ.currentCharacters ++ ['\''] } none false) := by
-    unfold stateStep; rw [h1]; simp [Step.ofPair, armStartByteList, push, h11]
+    unfold stateStep; rw [h1]; simp [Step.ofPair, armStartByteList, push, h1, h11]
   exact ⟨_, hs, by constructor <;> simp_all⟩
 
 theorem arm_startByteList_body (cc : CharClass) (τ : Lexer) (x : Char) {ty cs p0 p sq eq}
@@ -169,9 +170,9 @@ theorem arm_startByteList_body (cc : CharClass) (τ : Lexer) (x : Char) {ty cs p
   obtain ⟨h1, h2, h3, h4, h5, h6, h7, h8, h9, h10, h11, h12, h13⟩ := h
   have hxq : (x != '\'') = true := by simpa using hx
   have hl : (utf8Len τ.currentCharacters == 2) = false := by rw [h3]; simpa using h2q
-  have hs : stateStep cc τ x = .ok (.cont { τ with startQuoteCount := utf8Len τ.currentCharacters, state := .byteList,
-      currentCharacters := τ.currentCharacters ++ [x] } none false) := by
-    unfold stateStep; rw [h1]; simp [Step.ofPair, armStartByteList, push, h11, hxq, hl]
+  have hs : stateStep cc τ x = .ok (.cont
+      { τ with startQuoteCount := utf8Len τ.currentCharacters, state := .byteList, currentCharacters := τ.currentCharacters ++ [x] } none false) := by
+    unfold stateStep; rw [h1]; simp [Step.ofPair, armStartByteList, push, h1, h11, hxq, hl]
   exact ⟨_, hs, by constructor <;> simp_all⟩
 
 theorem arm_byteList_body (cc : CharClass) (τ : Lexer) (x : Char) {ty cs p0 p sq eq ae}
@@ -179,9 +180,9 @@ theorem arm_byteList_body (cc : CharClass) (τ : Lexer) (x : Char) {ty cs p0 p s
     ∃ e, stateStep cc τ x = .ok (.cont e none false) ∧ At e .byteList ty (cs ++ [x]) p0 p sq 0 ae := by
   obtain ⟨h1, h2, h3, h4, h5, h6, h7, h8, h9, h10, h11, h12, h13⟩ := h
   have hxq : (x == '\'') = false := by simpa using hx
-  have hs : stateStep cc τ x = .ok (.cont { τ with endQuoteCount := 0,
-      currentCharacters := τ.currentCharacters ++ [x] } none false) := by
-    unfold stateStep; rw [h1]; simp [Step.ofPair, armByteList, push, hxq]
+  have hs : stateStep cc τ x = .ok (.cont
+      { τ with endQuoteCount := 0, currentCharacters := τ.currentCharacters ++ [x] } none false) := by
+    unfold stateStep; rw [h1]; simp [Step.ofPair, armByteList, push, h1, hxq]
   exact ⟨_, hs, by constructor <;> simp_all⟩
 
 theorem arm_byteList_quote (cc : CharClass) (τ : Lexer) {ty cs p0 p sq eq ae}
@@ -189,9 +190,9 @@ theorem arm_byteList_quote (cc : CharClass) (τ : Lexer) {ty cs p0 p sq eq ae}
     ∃ e, stateStep cc τ '\'' = .ok (.cont e none false) ∧ At e .byteList ty (cs ++ ['\'']) p0 p sq (eq + 1) ae := by
   obtain ⟨h1, h2, h3, h4, h5, h6, h7, h8, h9, h10, h11, h12, h13⟩ := h
   have hq : (τ.startQuoteCount == τ.endQuoteCount + 1) = false := by rw [h12, h13]; simpa using hne
-  have hs : stateStep cc τ '\'' = .ok (.cont { τ with endQuoteCount := τ.endQuoteCount + 1,
-      currentCharacters := τ.currentCharacters ++ ['\''] } none false) := by
-    unfold stateStep; rw [h1]; simp [Step.ofPair, armByteList, push, hq]
+  have hs : stateStep cc τ '\'' = .ok (.cont
+      { τ with endQuoteCount := τ.endQuoteCount + 1, currentCharacters := τ.currentCharacters ++ ['\''] } none false) := by
+    unfold stateStep; rw [h1]; simp [Step.ofPair, armByteList, push, h1, hq]
   exact ⟨_, hs, by constructor <;> simp_all⟩
 
 end Garnish.Model.Lexer
